@@ -208,3 +208,120 @@ Proof.
   unfold gen_current_select, current_lits, sel_of_lits. cbn [map rev tl].
   rewrite removelast_last, <- map_rev, gen_levels_rule. reflexivity.
 Qed.
+
+(* ------------------------------------------------------------------ the assembled state machine
+   Gen/CondRules.v assembles _push_condition, _build, the per-target part of _finalize and the whole
+   elaboration from the regenerated rules (in the statement order its shape checks established).
+   They are, pointwise, the functions of the hand-written model -- so every theorem of Props/C07.v
+   about elab / elab_w is a theorem about gen_elab. *)
+Theorem rule_push : forall pw c s, push_w pw c s = gen_push pw c s.
+Proof. intros pw [p|] s; reflexivity. Qed.
+
+Theorem rule_build : forall l pl s, build l pl s = gen_build l pl s.
+Proof.
+  intros l pl s. unfold build, gen_build. rewrite rule_current_select.
+  destruct (sel_of_lits (current_lits (stk s))) as [sel|]; [|reflexivity].
+  rewrite (existsb_ext' _ (in_conflict (current_lits (stk s)))
+                          (fun test_set => gen_in_conflict (current_lits (stk s)) test_set)); [reflexivity|].
+  intro x. apply rule_conflict.
+Qed.
+
+Theorem rule_fin_one : forall d kv, fin_one d kv = gen_fin_one d kv.
+Proof.
+  intros d [[t|m] recs]; unfold fin_one, gen_fin_one; cbn [fst snd].
+  - do 2 f_equal. rewrite rule_fin_val. f_equal.
+    unfold default_expr, gen_default. destruct t as [i|i]; destruct (dflt_get d _); reflexivity.
+  - f_equal. destruct recs as [|[p0 pl0] rest]; [reflexivity|]. apply rule_fin_mem.
+Qed.
+
+Lemma gen_elab_tree_With : forall pw p body s,
+  gen_elab_tree pw (With p body) s =
+  match gen_push pw (CP p) s with
+  | None => None
+  | Some s1 => match gen_elab_forest pw body s1 with None => None | Some s2 => pop s2 end
+  end.
+Proof. reflexivity. Qed.
+
+Lemma gen_elab_tree_Otherwise : forall pw body s,
+  gen_elab_tree pw (Otherwise body) s =
+  match gen_push pw COth s with
+  | None => None
+  | Some s1 => match gen_elab_forest pw body s1 with None => None | Some s2 => pop s2 end
+  end.
+Proof. reflexivity. Qed.
+
+Lemma elab_tree_w_With' : forall pw p body s,
+  elab_tree_w pw (With p body) s =
+  match push_w pw (CP p) s with
+  | None => None
+  | Some s1 => match elab_forest_w pw body s1 with None => None | Some s2 => pop s2 end
+  end.
+Proof. reflexivity. Qed.
+
+Lemma elab_tree_w_Otherwise' : forall pw body s,
+  elab_tree_w pw (Otherwise body) s =
+  match push_w pw COth s with
+  | None => None
+  | Some s1 => match elab_forest_w pw body s1 with None => None | Some s2 => pop s2 end
+  end.
+Proof. reflexivity. Qed.
+
+Lemma gen_forest_eq : forall pw l,
+  Forall (fun t => forall s, elab_tree_w pw t s = gen_elab_tree pw t s) l ->
+  forall s, elab_forest_w pw l s = gen_elab_forest pw l s.
+Proof.
+  induction 1 as [|x l Hx Hl IH]; intro s; [reflexivity|].
+  cbn [elab_forest_w gen_elab_forest]. rewrite Hx.
+  destruct (gen_elab_tree pw x s); [apply IH|reflexivity].
+Qed.
+
+Lemma gen_tree_eq : forall pw t s, elab_tree_w pw t s = gen_elab_tree pw t s.
+Proof.
+  intros pw t. induction t as [p body IH|body IH|t r|m a d e] using ctree_ind2; intro s.
+  - rewrite elab_tree_w_With', gen_elab_tree_With, rule_push.
+    destruct (gen_push pw (CP p) s) as [s1|]; [|reflexivity].
+    rewrite (gen_forest_eq pw body IH). reflexivity.
+  - rewrite elab_tree_w_Otherwise', gen_elab_tree_Otherwise, rule_push.
+    destruct (gen_push pw COth s) as [s1|]; [|reflexivity].
+    rewrite (gen_forest_eq pw body IH). reflexivity.
+  - apply rule_build.
+  - apply rule_build.
+Qed.
+
+(* the capstone: the model the property theorems are about IS the elaborator assembled from the rules
+   regenerated from the current source *)
+Theorem rule_elab : forall pw prog d, elab_w pw prog d = gen_elab pw prog d.
+Proof.
+  intros pw prog d. unfold elab_w, gen_elab.
+  rewrite (gen_forest_eq pw prog); [|apply Forall_forall; intros t _; apply gen_tree_eq].
+  destruct (gen_elab_forest pw prog init_st) as [s|]; [|reflexivity].
+  unfold finalize. f_equal. apply map_ext. apply rule_fin_one.
+Qed.
+
+From PyRTL Require Import Front.CondWidth.
+
+Theorem gen_elab_none_iff : forall pw prog d,
+  gen_elab pw prog d = None <-> spec_accepts_w pw prog = false.
+Proof. intros. rewrite <- rule_elab. apply elab_w_none_iff. Qed.
+
+Theorem gen_elab_value : forall pw prog d res, gen_elab pw prog d = Some res ->
+  forall t, In (LW t) (map fst (slits prog)) ->
+  exists e, res_get res (LW t) = Some (FVal e) /\ forall E, Some (veval E e) = spec_value E d prog t.
+Proof.
+  intros pw prog d res H. rewrite <- rule_elab in H. apply elab_w_some in H. destruct H as [_ H].
+  exact (value_wire prog d res H).
+Qed.
+
+Theorem gen_elab_memory : forall pw prog d res, gen_elab pw prog d = Some res ->
+  forall m, In (LM m) (map fst (slits prog)) ->
+  exists en ad da, res_get res (LM m) = Some (FMem en ad da) /\
+    forall E,
+      match spec_mem E prog m with
+      | Some None => veval E en = 0
+      | Some (Some (a, dd, e)) => veval E en = e /\ veval E ad = a /\ veval E da = dd
+      | None => False
+      end.
+Proof.
+  intros pw prog d res H. rewrite <- rule_elab in H. apply elab_w_some in H. destruct H as [_ H].
+  exact (value_mem prog d res H).
+Qed.
